@@ -255,7 +255,7 @@ Qed.
 Lemma rewritten_return_rel c1 c2 e1 e2 : Rc c1 c2 -> Rc e1 e2 -> Rn (rewritten_return c1 e1) (rewritten_return c2 e2).
 Proof.
   intros Hc He. unfold rewritten_return. pose proof (tok_return_rel _ _ Hc) as Ht.
-  constructor; try (constructor; exact Ht). apply node_raw_rel. apply Rc_cn; exact He.
+  constructor; try (constructor; exact Ht). apply node_raw_rel. apply Rc_cn; exact Hc.
 Qed.
 
 (* the pieces of mark_function *)
